@@ -471,6 +471,15 @@ def run_check(pid, tier, seed, workers=None, runs=None, wall=None,
             # fall back to the unminimised plan rather than lose the finding
             replay_path = write_replay(pid, v, v["plan"])
             ok2, tail2 = confirm_replay_fresh(pid, replay_path)
+            if not ok2 and v.get("plan_full") is not None:
+                # the focused plan leaves out steps of the scenario that the
+                # violation needs (state kept on an object that serves the
+                # whole scenario): replay the scenario as it was run
+                replay_path = write_replay(pid, v, v["plan_full"])
+                ok2, tail2 = confirm_replay_fresh(pid, replay_path)
+                if ok2:
+                    out("the violation needs the whole scenario (not only "
+                        "the focused step); replay file holds all of it")
             if not ok2:
                 # does it need what earlier runs of the same worker left
                 # behind in the process?
